@@ -231,6 +231,15 @@ VARIANTS = [
     ("class-level-default-shadowed-by-constructor", S, None, [(AF, "    def __init__(\n        self,\n        anon_pwd,", "    reserved_words = frozenset()\n\n    def __init__(\n        self,\n        anon_pwd,")]),
     ("logging-extra-names-a-record-attribute", F, ["C14"], [(AF, 'logging.debug("Input line:  %s", line.rstrip())', 'logging.debug("Input line:  %s", line.rstrip(), extra={"lineno": 1})')]),
     ("word-stage-created-when-a-salt-is-given", F, ["C10", "C15"], [(AF, "        if sensitive_words is not None:\n            self.anonymizer_sensitive_word", "        if salt is not None:\n            self.anonymizer_sensitive_word")]),
+    # ---------------- environment and interfaces (round 9) ----------------------------------------------------------
+    ("both-streams-latin1", F, ["C09", "C12", "C16"], [(AF, 'with open(in_path, "r") as f_in, open(out_path, "w") as f_out:', 'with open(in_path, "r", encoding="latin-1") as f_in, open(out_path, "w", encoding="latin-1") as f_out:'), (AF, 'with open(in_file, "r") as in_io, open(out_file, "w") as out_io:', 'with open(in_file, "r", encoding="latin-1") as in_io, open(out_file, "w", encoding="latin-1") as out_io:')]),
+    ("preserve-addresses-action-append", F, ["C19", "C05"], [(NC, '        "--preserve-addresses",\n        default=None,', '        "--preserve-addresses",\n        action="append",\n        default=None,'), (NC, 'preserve_addresses = args.preserve_addresses.split(",")', 'preserve_addresses = ",".join(args.preserve_addresses).split(",")')]),
+    ("conflict-list-cut-for-the-warning", F, ["C10"], [(SI, "        if conflicting_words:\n            logging.warning(", "        if conflicting_words:\n            conflicting_words = sorted(conflicting_words)[:50]\n            logging.warning(")]),
+    ("line-count-read-after-the-loop", F, ["C14"], [(AF, "        for line in in_io.readlines():\n", "        for line_count, line in enumerate(in_io.readlines(), 1):\n"), (AF, "            out_io.write(output_line)\n", "            out_io.write(output_line)\n        logging.debug(\"Processed %d lines\", line_count)\n")]),
+    ("line-count-initialised-before-the-loop", S, None, [(AF, "        for line in in_io.readlines():\n", "        line_count = 0\n        for line_count, line in enumerate(in_io.readlines(), 1):\n"), (AF, "            out_io.write(output_line)\n", "            out_io.write(output_line)\n        logging.debug(\"Processed %d lines\", line_count)\n")]),
+    ("file-layer-inspects-the-word-list", F, ["C15"], [(AF, "        if sensitive_words is not None:\n            self.anonymizer_sensitive_word", "        if sensitive_words is not None and as_numbers is not None:\n            overlap = sorted(set(as_numbers).intersection(sensitive_words))\n            if overlap:\n                logging.warning(\"AS numbers that are also sensitive words: %s\", \", \".join(overlap))\n        if sensitive_words is not None:\n            self.anonymizer_sensitive_word")]),
+    ("return-before-the-dump-when-a-file-failed", F, ["C17"], [(AF, "            logging.error(\"Failed to anonymize file %s\", in_path, exc_info=True)\n", "            logging.error(\"Failed to anonymize file %s\", in_path, exc_info=True)\n            failed.append(in_path)\n"), (AF, "    for in_path, out_path in file_list:\n", "    failed = []\n    for in_path, out_path in file_list:\n"), (AF, "    if dumpfile is not None:\n", "    if failed:\n        return failed\n\n    if dumpfile is not None:\n")]),
+    ("debug-line-indexes-the-string-before-validation", F, ["C18", "C14"], [(JS, "    if not crypt or not re.search(VALID, crypt):", "    if crypt:\n        _first = crypt[len(MAGIC)]\n    if not crypt or not re.search(VALID, crypt):")]),
     ("unused-module-constant-from-library-call", S, None, [(SI, "_ANON_SENSITIVE_WORD_LEN = 6", "_ANON_SENSITIVE_WORD_LEN = 6\n_HEX_DIGITS = frozenset('0123456789abcdef')")]),
 ]
 
